@@ -143,9 +143,10 @@ def gen_dict(rng, dflt, scene_prms):
 # the machine
 # ------------------------------------------------------------------------------------------
 class Machine:
-    def __init__(self, frames, dicts, sandbox, stats=None):
+    def __init__(self, frames, dicts, sandbox, stats=None, mapping='dict'):
         import ampycloud
         self.amp = ampycloud
+        self.mapping = mapping
         self.frame_specs = frames
         self.frames = [build_frame(f) for f in frames]
         self.frame_dig = [frame_digest(f) for f in self.frames]
@@ -166,8 +167,18 @@ class Machine:
                             'pristine': pristine, 'stage': stage, 'dead': False,
                             'model0': copy.deepcopy(model_snap), 'edits': [], 'fi': fi})
 
+    def _as_mapping(self, dct):
+        """The caller's dict in the mapping type of this history (plain dict, defaultdict(dict)
+        with plain nested dicts, OrderedDict)."""
+        import collections
+        if dct is None or self.mapping == 'dict':
+            return dct
+        if self.mapping == 'defaultdict':
+            return collections.defaultdict(dict, dct)
+        return collections.OrderedDict(dct)
+
     def _prep(self, dj):
-        pristine = copy.deepcopy(self.dicts[dj]) if dj is not None else None
+        pristine = self._as_mapping(copy.deepcopy(self.dicts[dj])) if dj is not None else None
         passed = copy.deepcopy(pristine)
         snap = model_snapshot(self.model, pristine)
         return pristine, passed, snap
@@ -418,7 +429,7 @@ def _exc(name):
 
 
 def run_history(case, sandbox, stats=None):
-    mach = Machine(case['frames'], case['dicts'], sandbox, stats)
+    mach = Machine(case['frames'], case['dicts'], sandbox, stats, case.get('mapping', 'dict'))
     try:
         bad = mach.check()
         if bad:
@@ -602,7 +613,11 @@ def execute(run):
                 dicts = [gen_dict(rng_prms, dflt, rng_prms.choice(prm_pool)) for _ in range(3)]
                 dicts = [d for d in dicts if d is not None] or [{}]
                 ops = gen_ops(rng_ops, len(frames), len(dicts), run['faults'])
-                case = {'frames': frames, 'dicts': dicts, 'ops': ops}
+                case = {'frames': frames, 'dicts': dicts, 'ops': ops,
+                        'mapping': rng_prms.choice(['dict'] * 6 + ['defaultdict'] * 3
+                                                   + ['OrderedDict'])}
+                stats[f'probe.caller_mapping_{case["mapping"]}'] = \
+                    stats.get(f'probe.caller_mapping_{case["mapping"]}', 0) + 1
                 vio = run_history(case, sandbox, stats)
                 out['n_eval'] += 1
                 out['steps'] += len(ops)
